@@ -66,4 +66,28 @@ Section S.
 
   Lemma ssort_idempotent l : ssort (ssort l) = ssort l.
   Proof. apply ssort_sorted_id, ssort_sorted. Qed.
+
+  (* stability, in the form used for groups of mixed kinds: sorting and then picking the elements of one kind is picking
+     them first and sorting them *)
+  Lemma ins_front x l : Forall (fun z => le x z = true) l -> ins x l = x :: l.
+  Proof. intros H. destruct l as [|y r]; [reflexivity|]. simpl. inversion H as [|? ? Hy _]; subst. rewrite Hy. reflexivity. Qed.
+
+  Lemma ins_filter (p : A -> bool) x l : StronglySorted leP l ->
+    filter p (ins x l) = if p x then ins x (filter p l) else filter p l.
+  Proof.
+    induction 1 as [|y r Hs IH Hy]; simpl; [destruct (p x); reflexivity|].
+    destruct (le x y) eqn:E.
+    - simpl. destruct (p x); [|reflexivity]. symmetry. apply ins_front.
+      assert (Hall : Forall (fun z => le x z = true) (y :: r)).
+      { constructor; [exact E|]. eapply Forall_impl; [|exact Hy]. intros z Hz. exact (le_trans x y z E Hz). }
+      change (Forall (fun z => le x z = true) (filter p (y :: r))).
+      clear - Hall. induction Hall as [|z l Hz Hl IHl]; simpl; [constructor|]. destruct (p z); [constructor; assumption | exact IHl].
+    - simpl. rewrite IH. destruct (p y), (p x); simpl; try rewrite E; reflexivity.
+  Qed.
+
+  Lemma filter_ssort (p : A -> bool) l : filter p (ssort l) = ssort (filter p l).
+  Proof.
+    induction l as [|x r IH]; [reflexivity|]. cbn [ssort]. rewrite ins_filter by apply ssort_strongly_sorted.
+    simpl. destruct (p x); [cbn [ssort]; rewrite IH; reflexivity | exact IH].
+  Qed.
 End S.
